@@ -29,6 +29,7 @@ type scriptGetter struct {
 	headFn   func(trusted *vhdr.Header) (*vhdr.Header, error) // Head() behaviour
 	rangeFn  func(from *vhdr.Header, to uint64) ([]*vhdr.Header, error)
 	headGate chan struct{} // when set, Head blocks until it is closed
+	nfAll    bool          // GetByHeight answers header.ErrNotFound for every height (peers have nothing / pruned everything)
 	hDelay   time.Duration // when > 0: every GetByHeight takes that long (a slow tail fetch)
 	budget   int           // when > 0: GetByHeight fails with errBudget after that many requests (non-termination guard)
 	nH       int
@@ -94,6 +95,9 @@ func (g *scriptGetter) GetByHeight(ctx context.Context, h uint64) (*vhdr.Header,
 	g.mu.Unlock()
 	if over {
 		return nil, errBudget
+	}
+	if g.nfAll {
+		return nil, fmt.Errorf("scripted getter: height %d: %w", h, header.ErrNotFound)
 	}
 	if g.failH[h] {
 		return nil, errGetter
